@@ -645,6 +645,11 @@ func (g *gen) genMore() {
 	for _, mode := range []int{1, 2, 3, 4} {
 		g.add("cli.kestallquic", "nt", lib.I(int64(mode)))
 	}
+	// calls whose context has no deadline: the exchange timeout of the key exchange must end them
+	g.add("cli.kestall", "nt,nodeadline", lib.V("3", "0", "1"))
+	g.add("cli.kestall", "nt,nodeadline", lib.V("1", "1", "1"))
+	g.add("cli.kestallquic", "nt,nodeadline", lib.V("3", "1"))
+	g.add("cli.kestallquic", "nt,nodeadline", lib.V("1", "1"))
 	// ---- SCION client with NTS ----
 	good8 := il(124, 124, 124, 124, 124, 124, 124, 124)
 	call := func(ke string, mode int, rl string, sp int, server []byte) string {
